@@ -263,6 +263,7 @@ namespace sqf::parser::sqf
                         is_match<'!'>(iter) ? 1 :
                         is_match<':'>(iter) ? 1 :
                         is_match<'#'>(iter) ? 1 :
+                        is_match<'.'>(iter) ? 1 :
                         is_match_repeated<2, '|'>(iter) ? 2 :
                         is_match_repeated<2, '&'>(iter) ? 2 :
                         0
@@ -519,7 +520,7 @@ namespace sqf::parser::sqf
             case '^':           return try_match({ etoken::t_operator });
             case ';':           return try_match({ etoken::s_semicolon });
             case ',':           return try_match({ etoken::s_comma });
-            case '.':           return try_match({ etoken::t_number });
+            case '.':           return try_match({ etoken::t_number, etoken::t_operator });
             case ' ':           return try_match({ etoken::i_whitespace });
             case '\r':          return try_match({ etoken::i_whitespace });
             case '\t':          return try_match({ etoken::i_whitespace });
